@@ -328,11 +328,20 @@ func (p *prop) execLine(l string) string {
 		t := codec.Build(ws[1], 0, tes)
 		g, free := codec.Guard(d)
 		defer free()
-		changed, _, err := t.ImportRoaringBits(g, ws[2] == "1", false, 0)
+		changed, rowSet, err := t.ImportRoaringBits(g, ws[2] == "1", false, 16)
 		if err != nil {
 			return "err:" + codec.ErrClass(err) + " v=" + codec.ShowRanges(t.Slice())
 		}
-		return fmt.Sprintf("ok changed=%d v=%s", changed, codec.ShowRanges(t.Slice()))
+		var rows []uint64
+		for r := range rowSet {
+			rows = append(rows, r)
+		}
+		rows = vh.SortedU64(rows)
+		rs := make([]string, len(rows))
+		for i, r := range rows {
+			rs[i] = fmt.Sprintf("%d:%d", r, rowSet[r])
+		}
+		return fmt.Sprintf("ok changed=%d v=%s rows=[%s]", changed, codec.ShowRanges(t.Slice()), strings.Join(rs, " "))
 	}
 	return "bad-op"
 }
